@@ -52,6 +52,15 @@ func runC09(c *fw.Ctx, idx int) fw.Result {
 		res.Count("cases_with_gap_or_ambiguity_in_reference", 1)
 	}
 	o, mode := randomUDOpts(r, in)
+	if !o.Table && len(in.Queries) >= 2 && r.Chance(0.2) {
+		// two query records with one ID and different sequences (a re-sequenced sample): each is a
+		// query of its own with its own row, in file order (the list form is read by position)
+		k, j := r.Intn(len(in.Queries)), r.Intn(len(in.Queries))
+		if k != j {
+			in.Queries[j].ID, in.Queries[j].Desc = in.Queries[k].ID, in.Queries[k].Desc
+			res.Count("cases_with_repeated_query_id", 1)
+		}
+	}
 	W := len(in.Ref)
 	refTxt := noFinalNL(r, gen.RefFasta("root", in.Ref, gen.PickLineWidth(r, W)))
 	qTxt, tTxt := noFinalNL(r, gen.RenderFasta(in.Queries, gen.PickLineWidth(r, W))), noFinalNL(r, gen.RenderFasta(in.Targets, gen.PickLineWidth(r, W)))
